@@ -1627,9 +1627,15 @@ impl Harness {
         }
         let tree_before = crate::snapshot::dir_tree(&self.world.data_path());
         let started = self.world.start().await;
-        self.check_panics("C03");
+        // A server that does not come up again (error or panic during start-up) on what a fault-free history
+        // left behind fails every property whose statement promises something "after a restart": reported
+        // under the run's own property when it is one of those, under C03 (for whoever borrows it) otherwise.
+        const PROMISE_SOMETHING_AFTER_RESTART: [&str; 11] = ["C01", "C02", "C03", "C04", "C05", "C07", "C10", "C14", "C16", "C18", "C19"];
+        let owner: &'static str = PROMISE_SOMETHING_AFTER_RESTART.iter().copied().find(|p| self.opts.props.contains(*p)).unwrap_or("C03");
+        self.check_panics(owner);
         if let Err(e) = started {
-            self.violate("C03", "restart_ok", format!("init_error:{}", e.as_string()), format!("restart on the same directory failed: {e:?}"));
+            self.violate(owner, "restart_ok", format!("init_error:{}", e.as_string()), format!("restart on the same directory failed: {e:?}"));
+            self.stats.probe("restart_failed");
             self.fatal = true;
             return;
         }
